@@ -25,6 +25,9 @@ SCRIPTS_QUICK = [
     "W32:%d:7:-1|S:%d:7|N:%d:4" % (A, A, A),
     "W64:%d:0:5|N:%d:0;N:%d:1" % (C, C, C),
     "W32:%d:0:5;W32:%d:0:5|N:%d:1;N:%d:1" % (A, B, A, B),
+    # EVERY negative timeout means "no timeout", not only -1
+    "W32:%d:0:-2|N:%d:1" % (A, A),
+    "W64:%d:0:-9223372036854775808|W32:%d:0:-1000000000|N:%d:2" % (C, C, C),
 ]
 SCRIPTS_THOROUGH = SCRIPTS_QUICK + [
     "W32:%d:0:-1|W32:%d:0:-1|W32:%d:0:5|N:%d:2|N:%d:1" % (A, A, B, A, B),
@@ -153,6 +156,7 @@ def main():
             raise common.MachineryError("cannot build the real-thread futex driver: " + err[-2000:])
         LONG = [2 ** 63 - 1, 2 ** 62, 10 ** 18, 8 * 10 ** 18, 9 * 10 ** 18, 10 ** 15]
         real_scripts = [("W%d:64:0:%d|D:20;U:64:1:1" % (b, t), "long") for t in LONG for b in (32, 64)] + \
+                       [("W%d:64:0:%d|D:20;U:64:1:1" % (b, t), "long") for t in (-2, -(2 ** 63), -10 ** 9, -999999999) for b in (32, 64)] + \
                        [("W32:64:0:20000000", "short"), ("W64:64:0:30000000", "short"), ("W32:64:0:0", "zero"), ("W32:64:0:1", "zero"),
                         ("W32:64:0:%d|W32:64:0:%d|D:20;U:64:5:2" % (2 ** 63 - 1, 10 ** 18), "long2"),
                         # spurious wake-ups during a timed wait: it may last longer, never shorter than its time-out
